@@ -14,6 +14,11 @@ case = [rows, args, pairs, mode]
    pairs = [[p, q]] ...                              (arguments of distance)
    mode  = bit0: also run summary()/clustering() and compare the printed numbers
            bit1: pass `platforms` as a list instead of a set
+           bit3: CLI case.  case[4] = the generating rows of a small code base (one C file, one
+                 `#if defined(..)` block per row, one -D macro per platform); the real `codebasin`
+                 CLI is run on it as a subprocess, `rows` is the setmap read back from the summary
+                 table IT PRINTS, and the printed Code Divergence / Coverage / Avg. Coverage lines
+                 and the distance matrix must be the metrics of that printed table
            bit2: metamorphic run on the implementation itself: the same calls on the table with
                  every platform renamed (injectively), the rows inserted in reverse order and every
                  count multiplied by 7 must give the same values (1e-9 relative; NaN = NaN)
@@ -22,8 +27,13 @@ from __future__ import annotations
 
 import io
 import itertools
+import json
 import logging
 import math
+import os
+import re
+import subprocess
+import sys
 from fractions import Fraction
 
 from . import common
@@ -110,7 +120,7 @@ def table_platforms(rows):
 def oracle(case):
     """Independent Python oracle: the definitions on explicit sets of line ids
     (small tables) or on weighted sets (large counts), exact fractions."""
-    rows, args, prs, mode = case
+    rows, args, prs, mode = case[:4]
     total = sum(c for (_, c) in rows)
     plats = table_platforms(rows)
     names = set(plats) | {p for a in args if a for p in a} | {p for pq in prs for p in pq}
@@ -169,6 +179,79 @@ def oracle(case):
             "plats": plats}
 
 
+
+# ---------------------------------------------------------------- the real CLI
+CLI_NAMES = ["A", "B", "C", "cpu", "gpu", "fpga", "p-1", "B2"]
+_cli_counter = [0]
+
+
+def cli_run(gen):
+    """Build the code base described by gen = [platform names, [[subset, nlines], ...]] and run
+    `python -m codebasin analysis.toml` on it; returns its stdout (or ["Err", what])."""
+    names, blocks = gen
+    _cli_counter[0] += 1
+    root = common.scratch() / f"c07-cli-{_cli_counter[0]}"
+    root.mkdir(parents=True)
+    src = []
+    k = 0
+    for (sub, n) in blocks:
+        if len(sub) == 0:
+            src.append("#if 0")
+        elif len(sub) < len(names):
+            src.append("#if " + " || ".join(f"defined(USE_{names.index(p)})" for p in sub))
+        for _ in range(n):
+            k += 1
+            src.append(f"int v{k};")
+        if len(sub) < len(names):
+            src.append("#endif")
+    (root / "main.c").write_text("\n".join(src) + "\n")
+    toml = []
+    for i, nm in enumerate(names):
+        (root / f"cc{i}.json").write_text(json.dumps(
+            [{"directory": str(root), "command": f"gcc -DUSE_{i} -c main.c", "file": "main.c"}]))
+        toml.append(f'[platform."{nm}"]\ncommands = "cc{i}.json"\n')
+    (root / "analysis.toml").write_text("\n".join(toml))
+    env = dict(os.environ, PYTHONPATH=str(common.REPO), PYTHONHASHSEED="0", MPLBACKEND="Agg")
+    try:
+        pr = subprocess.run([sys.executable, "-W", "ignore", "-m", "codebasin", "analysis.toml"], cwd=root, env=env,
+                            capture_output=True, text=True, timeout=120)
+    except subprocess.TimeoutExpired:
+        return ["Err", "cli-timeout"]
+    if pr.returncode != 0:
+        return ["Err", "cli-exit-%d" % pr.returncode, (pr.stdout + pr.stderr)[-300:]]
+    return pr.stdout
+
+
+def cli_parse(text):
+    """-> (rows read from the summary table, {"div","cov","avg"} printed strings, matrix or None, its header)"""
+    rows, rep, matrix, hdr = [], {}, None, None
+    section = None
+    for line in text.splitlines():
+        t = line.strip()
+        if t == "Summary":
+            section = "summary"
+        elif t == "Clustering":
+            section = "clustering"
+        elif t.startswith("Duplicates"):
+            section = "other"
+        for key, tag in (("Code Divergence: ", "div"), ("Coverage (%): ", "cov"), ("Avg. Coverage (%): ", "avg")):
+            if t.startswith(key):
+                rep[tag] = t[len(key):].strip()
+        if t.startswith("│"):
+            cells = [c.strip() for c in t.strip("│").split("│")]
+            if section == "summary":
+                m = re.fullmatch(r"\{(.*)\}", cells[0])
+                if m:
+                    names = [x for x in m.group(1).split(", ") if x != ""]
+                    rows.append([sorted(names), int(cells[1])])
+            elif section == "clustering":
+                if hdr is None:
+                    hdr = cells[1:]
+                    matrix = []
+                else:
+                    matrix.append(cells)
+    return rows, rep, matrix, hdr
+
 # ---------------------------------------------------------------- the check
 class C07(Check):
     prop_id = "C07"
@@ -177,7 +260,10 @@ class C07(Check):
             "every `platforms` argument (None and all 8 subsets) and all 16 ordered pairs over {A,B,C,absent}; random stream: "
             "tables over <= 8 platforms, 1-24 distinct rows in random insertion order, counts from {0, small, <= 10^12}, "
             "arguments None/empty/subsets/unknown names, as set or list; malformed stream: negative counts, duplicate names "
-            "in a list argument (compared with M only). Non-trivial = >= 2 platforms, lines > 0 and some distance strictly "
+            "in a list argument (compared with M only); CLI stream: 6 (quick) / 40 (thorough) generated one-file code bases over 1-5 "
+            "platforms run through the real `codebasin` command, the printed metric lines and distance matrix checked against "
+            "the setmap read from the printed summary table; metamorphic bit: the implementation re-run on the renamed, "
+            "row-reversed, x7-scaled table must agree with itself. Non-trivial = >= 2 platforms, lines > 0 and some distance strictly "
             "between 0 and 1")
     assumptions = ["Python int = Z; binary64 results are compared with M's exact rational within 1e-9 relative "
                    "(counts <= 10^12, <= 256 rows: every integer involved is < 2^53)",
@@ -275,6 +361,22 @@ class C07(Check):
                 prs += [[p, p] for p in pool[:3]]
                 prs += [[q, p] for (p, q) in prs[:3]]
             out.append([rows, args, prs, mode])
+        # ---- CLI stream: the real command line tool on small generated code bases
+        self._cli_cache = getattr(self, "_cli_cache", {})
+        for i in range(6 if quick else 40):
+            np_ = rng.choice([1, 2, 2, 3, 3, 4, 5])
+            names = rng.sample(CLI_NAMES, np_)
+            masks = rng.sample(range(2 ** np_), rng.randint(1, min(2 ** np_, 10)))
+            blocks = [[sorted(p for j, p in enumerate(names) if m >> j & 1), rng.randint(1, 30)] for m in masks]
+            gen = [names, blocks]
+            text = cli_run(gen)
+            self._cli_cache[json.dumps(gen)] = text
+            if isinstance(text, list):
+                rows = []
+            else:
+                rows = cli_parse(text)[0]
+            plats = sorted(names)
+            out.append([rows, [None], [[p, q] for p in plats for q in plats], 1 | 8, gen])
         # ---- malformed stream (outside the quantifier; I ~ M only)
         for i in range(100 if quick else 2000):
             np_ = rng.randint(1, 4)
@@ -295,7 +397,7 @@ class C07(Check):
         return all(c >= 0 for (_, c) in rows) and sum(c for (_, c) in rows) <= S_LIMIT
 
     def encode(self, case):
-        rows, args, prs, mode = case
+        rows, args, prs, mode = case[:4]
         return enc([[[list(s), c] for (s, c) in rows],
                     ["None" if a is None else list(a) for a in args],
                     [list(pq) for pq in prs],
@@ -304,7 +406,7 @@ class C07(Check):
     # ------------------------------------------------------------ implementation
     def impl(self, case):
         from codebasin import report
-        rows, args, prs, mode = case
+        rows, args, prs, mode = case[:4]
         setmap = {}
         for (s, c) in rows:
             setmap[frozenset(s)] = c
@@ -328,11 +430,31 @@ class C07(Check):
             out["plats"] = sorted(report.extract_platforms(setmap))
         except Exception as e:  # noqa
             out["plats"] = ["Err", type(e).__name__]
-        if mode & 1:
+        if mode & 8:
+            out["report"] = self._cli_report(case)
+        elif mode & 1:
             out["report"] = self._report(report, setmap, rows)
         if mode & 4:
             out["meta"] = self._meta(report, rows, args, prs, mode, out)
         return out
+
+    def _cli_report(self, case):
+        rows, gen = case[0], case[4]
+        key = json.dumps(gen)
+        cache = getattr(self, "_cli_cache", {})
+        text = cache[key] if key in cache else cli_run(gen)
+        if isinstance(text, list):
+            return {"cli": text}
+        prows, rep, matrix, hdr = cli_parse(text)
+        canon = lambda rr: sorted([sorted(s_), c] for (s_, c) in rr)  # noqa
+        rep["cli"] = "table-as-recorded" if canon(prows) == canon(rows) else ["table-differs", prows]
+        plats = sorted(gen[0])
+        if len(plats) >= 2:
+            if hdr != plats or matrix is None or [r[0] for r in matrix] != plats:
+                rep["matrix"] = ["Err", "matrix-labels", hdr]
+            else:
+                rep["matrix"] = [r[1:] for r in matrix]
+        return rep
 
     @staticmethod
     def _meta(report, rows, args, prs, mode, base):
@@ -427,7 +549,7 @@ class C07(Check):
                 "dist": [from_driver(x) for x in dist], "div": from_driver(div), "plats": sorted(plats)}
 
     def _with_report(self, case, ref):
-        rows, args, prs, mode = case
+        rows, args, prs, mode = case[:4]
         if mode & 4:
             ref = dict(ref)
             ref["meta"] = "same"
@@ -441,6 +563,8 @@ class C07(Check):
             m = [[look.get((p, q), "missing") for q in plats] for p in plats]
             if all(x != "NaN" for r in m for x in r):
                 rep["matrix"] = m
+        if mode & 8:
+            rep["cli"] = "table-as-recorded"
         ref["report"] = rep
         return ref
 
@@ -498,7 +622,7 @@ class C07(Check):
 
     # ------------------------------------------------------------ classification
     def in_domain(self, case, spec_ans):
-        rows, args, prs, mode = case
+        rows, args, prs, mode = case[:4]
         if spec_ans is None:
             return False
         if any(c < 0 for (_, c) in rows):
@@ -533,7 +657,9 @@ class C07(Check):
 
     # ------------------------------------------------------------ shrinking
     def shrink(self, case, still_fails):
-        rows, args, prs, mode = case
+        rows, args, prs, mode = case[:4]
+        if mode & 8:
+            return case
         cur = [list(rows), list(args), list(prs), mode]
 
         def attempt(c):
@@ -580,7 +706,7 @@ class C07(Check):
     def _distribution(self):
         h = self._hist
         for case in getattr(self, "_generated", []):
-            rows, args, prs, mode = case
+            rows, args, prs, mode = case[:4]
             np_ = len(table_platforms(rows))
             h["platforms"][str(np_)] = h["platforms"].get(str(np_), 0) + 1
             b = len(rows) if len(rows) <= 8 else ("9-16" if len(rows) <= 16 else "17-24")
@@ -595,6 +721,10 @@ class C07(Check):
                 h["empty_set_row"] = h.get("empty_set_row", 0) + 1
             if mode & 2:
                 h["list_argument"] = h.get("list_argument", 0) + 1
+            if mode & 4:
+                h["metamorphic"] = h.get("metamorphic", 0) + 1
+            if mode & 8:
+                h["cli_subprocess_cases"] = h.get("cli_subprocess_cases", 0) + 1
         return h
 
     def extra_coverage(self):
